@@ -17,4 +17,4 @@ def run(ctx):
         {"world": "happy", "sim": 3 if q else 20, "steps": 8 if q else 10, "avoid": True, "cap": 150 if q else 3000, "seeds": 1 if q else 2},
     ]
     design = [("Mirror_c11.cfg", {"MaxSteps": 5 if q else 6}, "C11_SMFresh, C11_GossipFresh on every reachable state of the consumers world")]
-    return mirrorcheck.run(ctx, {"C11"}, plans, design_cfgs=design)
+    return mirrorcheck.run(ctx, {"C11"}, plans, design_cfgs=design, suite="mirror")
